@@ -325,3 +325,85 @@ Proof.
          end;
     try (inversion Hc; subst; left; reflexivity); eapply G; exact Hc.
 Qed.
+
+Lemma handle_ph_loop_total fuel : forall backfilled s p, tinv s ->
+  okT (fun sr => hdr_wf (ph_hdr p) -> tinv (fst sr)) (handle_ph_loop fuel backfilled s p).
+Proof.
+  assert (Hbody : forall s p proposer prev_hash prev_vs,
+    tinv s -> (vs_keys prev_vs = [] \/ pow_ok prev_vs) ->
+    okT (fun sr => hdr_wf (ph_hdr p) -> tinv (fst sr))
+    (let hd := ph_hdr p in
+      if negb (hd_ok hd) then Ok (s, HandleProposedHeaderBadBlockHash)
+      else if negb (vs_ok (hd_vals hd) && vs_ok (hd_next hd)) then Ok (s, HandleProposedHeaderBadBlockHash)
+      else
+        match proposer with
+        | None => Ok (s, HandleProposedHeaderBadSignature)
+        | Some key =>
+          if negb (verify_prop key (ph_content p) (ph_round p) (ph_sig p)) then Ok (s, HandleProposedHeaderBadSignature)
+          else if negb (hd_height hd =? k_init_h s) && negb (bytes_eqb (hd_prev hd) prev_hash)
+          then Ok (s, HandleProposedHeaderBadBlockHash)
+          else if negb (bytes_eqb (vs_pkh prev_vs) (cp_pkh (hd_pcp hd)))
+          then Ok (s, HandleProposedHeaderBadPrevCommitProofPubKeyHash)
+          else
+            let accept := bind (add_ph s p) (fun s' => Ok (s', HandleProposedHeaderAccepted)) in
+            if k_init_h s <? hd_height hd then
+              match vs_keys prev_vs with
+              | [] => Ok (s, HandleProposedHeaderBadPrevCommitProofPubKeyHash)
+              | _ =>
+                match validate_finalized (sub64 (hd_height hd) 1) (cp_round (hd_pcp hd)) (vs_keys prev_vs)
+                        (hd_prev hd) (cp_proofs (hd_pcp hd)) with
+                | (_, false) => Ok (s, HandleProposedHeaderBadPrevCommitProofDoubleSigned)
+                | (None, true) => Ok (s, HandleProposedHeaderBadPrevCommitProofSignature)
+                | (Some bits, true) =>
+                    let avail := sum_pows (vs_pows prev_vs) in
+                    bind (byz_majority avail) (fun maj =>
+                    if idx_power (vs_pows prev_vs) bits <? maj
+                    then Ok (s, HandleProposedHeaderBadPrevCommitVoteCount)
+                    else accept)
+                end
+              end
+            else accept
+        end)).
+  { intros s p proposer prev_hash prev_vs H Hpv. cbv zeta.
+    assert (Hsame : forall r0, okT (fun sr : kstate * N => hdr_wf (ph_hdr p) -> tinv (fst sr)) (Ok (s, r0)))
+      by (intros r0; apply okT_ret; intros _; exact H).
+    destruct (negb (hd_ok _)); [apply Hsame|].
+    destruct (negb (_ && _)); [apply Hsame|].
+    destruct proposer as [key|]; [|apply Hsame].
+    destruct (negb (verify_prop _ _ _ _)); [apply Hsame|].
+    destruct (negb _ && negb _); [apply Hsame|].
+    destruct (negb (bytes_eqb _ _)); [apply Hsame|].
+    assert (Hacc : okT (fun sr : kstate * N => hdr_wf (ph_hdr p) -> tinv (fst sr))
+                     (bind (add_ph s p) (fun s' => Ok (s', HandleProposedHeaderAccepted)))).
+    { eapply okT_bind; [apply add_ph_total; exact H|]. cbv beta. intros s' Hs'. apply okT_ret. exact Hs'. }
+    destruct (k_init_h s <? _); [|exact Hacc].
+    destruct (vs_keys prev_vs) as [|k0 kl] eqn:Hk; [apply Hsame|].
+    destruct (validate_finalized _ _ _ _ _) as [[bits|] [|]]; try apply Hsame.
+    destruct Hpv as [Hpv|Hpv]; [rewrite Hpv in Hk; discriminate|].
+    destruct (maj_ok _ (pow_ok_range _ Hpv)) as [maj Hm]. rewrite Hm. cbn [bind].
+    destruct (_ <? maj); [apply Hsame|exact Hacc]. }
+  induction fuel as [|f IH]; intros backfilled s p H; cbn [handle_ph_loop];
+    destruct (ph_check s p) as [status proposer prev_hash prev_vs] eqn:Hc.
+  all: assert (Hsame : forall r0, okT (fun sr : kstate * N => hdr_wf (ph_hdr p) -> tinv (fst sr)) (Ok (s, r0)))
+         by (intros r0; apply okT_ret; intros _; exact H).
+  all: pose proof (ph_check_prev_vs _ _ _ _ _ _ (proj1 H) Hc) as Hpv.
+  all: destruct (status =? PHCheckAlreadyHaveSignature); [apply Hsame|].
+  all: destruct (status =? PHCheckSignerUnrecognized); [apply Hsame|].
+  all: destruct (status =? PHCheckRoundTooOld); [apply Hsame|].
+  all: destruct (status =? PHCheckRoundTooFarInFuture); [apply Hsame|].
+  all: destruct (status =? PHCheckNextHeight).
+  - destruct backfilled; apply Hsame.
+  - apply Hbody; assumption.
+  - destruct backfilled; [apply Hsame|].
+    eapply okT_bind; [apply handle_votes_total; exact H|].
+    cbv beta. intros sr Hsr. apply IH. exact Hsr.
+  - apply Hbody; assumption.
+Qed.
+
+Lemma handle_ph_total s p : tinv s ->
+  okT (fun sr => hdr_wf (ph_hdr p) -> tinv (fst sr)) (handle_ph s p).
+Proof.
+  intros H. unfold handle_ph. destruct (ph_key p).
+  - apply handle_ph_loop_total; exact H.
+  - apply okT_ret. intros _. exact H.
+Qed.
